@@ -7,7 +7,7 @@ ASSUMPTIONS = ["asyncio-visible interleavings only; real thread pre-emption is n
 
 def run(tier, seed):
     from .. import extra
-    return [extra.suite_two_workers(tier, seed), extra.suite_colliding_client_ids(tier, seed), extra.suite_publish_during_churn(tier, seed), extra.suite_stalled_reader(tier, seed), extra.suite_live_then_stored(tier, seed), relay.suite_concurrent_dup(tier, seed, ("sql",)), relay.suite_exhaustive(tier, seed, "sql", pid="C05"), relay.suite_live(tier, seed, pid="C05"), relay.suite_relay(tier, seed, "sql", label="live", pid="C05"),
+    return [relay.suite_scripted(tier, seed, "sql", pid="C05"), relay.suite_scripted(tier, seed, "kv", pid="C05"), extra.suite_peer_gone(tier, seed), extra.suite_two_workers(tier, seed), extra.suite_colliding_client_ids(tier, seed), extra.suite_publish_during_churn(tier, seed), extra.suite_stalled_reader(tier, seed), extra.suite_live_then_stored(tier, seed), relay.suite_concurrent_dup(tier, seed, ("sql",)), relay.suite_exhaustive(tier, seed, "sql", pid="C05"), relay.suite_live(tier, seed, pid="C05"), relay.suite_relay(tier, seed, "sql", label="live", pid="C05"),
             relay.suite_relay(tier, seed, "kv", label="live", pid="C05")]
 
 
